@@ -12,8 +12,10 @@ Inductive obs :=
 
 (* the observation must be one of the outcomes the model allows; for a
    definite model verdict (empty or singleton set) this is equality *)
-Definition obs_ok (o : outs) (ob : obs) : bool :=
-  if o_oom o then false else
+Definition obs_ok (o : outs) (ob : obs) (may_oom : bool) : bool :=
+  (* [may_oom]: the harness saw a compare-as-map key field whose f-string the
+     model does not cover; only then may the model answer "out of model" *)
+  if o_oom o then may_oom else
   match ob with
   | ObsMatch => is_match o
   | ObsMismatch => o_false o
@@ -64,13 +66,13 @@ Fixpoint list_eqb2 {A B} (f : A -> B -> bool) (a : list A) (b : list B) : bool :
   end.
 
 Inductive case :=
-| CUnit (t a : json) (la : option json) (as_set : bool) (ob : obs)
+| CUnit (t a : json) (la : option json) (as_set : bool) (ob : obs) (may_oom : bool)
 | CTail (cfg : tail_cfg) (target live : json) (ann : option json)
         (r : tobs_result) (calls : list tobs_call).
 
 Definition check_case (c : case) : bool :=
   match c with
-  | CUnit t a la s ob => obs_ok (vmatch t a la s) ob
+  | CUnit t a la s ob mo => obs_ok (vmatch t a la s) ob mo
   | CTail cfg t l ann r calls =>
       match tail cfg t l ann with
       | Some (mr, mc) => tres_eqb mr r && list_eqb2 tcall_eqb mc calls
@@ -81,6 +83,6 @@ Definition check_case (c : case) : bool :=
 (* statistics only: is the model verdict definite on this case? *)
 Definition definite_case (c : case) : bool :=
   match c with
-  | CUnit t a la s _ => definite (vmatch t a la s)
+  | CUnit t a la s _ _ => definite (vmatch t a la s)
   | CTail cfg t l ann _ _ => match tail cfg t l ann with Some _ => true | None => false end
   end.
